@@ -53,6 +53,7 @@ type instModel struct {
 	silent   bool
 	quota    map[string]int32 // upstream -> last answered quota (allocate)
 	reports  map[string]int   // upstream -> number of reports
+	lastUsed map[string]int32 // upstream -> usage of the previous report
 	inflight map[string]int32 // upstream -> accepted in-flight count (count strategy)
 	ids      int64
 }
@@ -71,7 +72,7 @@ func TestPropReclaim(t *testing.T) {
 		model := map[string]*instModel{}
 		get := func(n string) *instModel {
 			if model[n] == nil {
-				model[n] = &instModel{quota: map[string]int32{}, reports: map[string]int{}, inflight: map[string]int32{}}
+				model[n] = &instModel{quota: map[string]int32{}, reports: map[string]int{}, inflight: map[string]int32{}, lastUsed: map[string]int32{}}
 			}
 			return model[n]
 		}
@@ -164,6 +165,11 @@ func TestPropReclaim(t *testing.T) {
 				if q, ok := m.quota[u]; ok {
 					cfg.MaxRequestsInflight = &proxyv1alpha1.MaxRequestsInflightFlowControlSchema{Max: q}
 					used := int32(rapid.IntRange(0, int(q)).Draw(t, "used"))
+					if last, ok := m.lastUsed[u]; ok && last <= q && rapid.IntRange(0, 2).Draw(t, "sameAsLastTime") == 0 {
+						used = last // a steady instance: the report is identical to its previous one if its quota did not move
+						sub.Class("report-repeats-the-previous-usage")
+					}
+					m.lastUsed[u] = used
 					st.MaxRequestsInflight.Max = used
 					st.RequestLevel = used * 100 / q
 				}
@@ -268,6 +274,7 @@ func TestPropReclaim(t *testing.T) {
 						reclaimedOnce[n] = true
 						m.quota = map[string]int32{}
 						m.reports = map[string]int{}
+						m.lastUsed = map[string]int32{}
 						m.inflight = map[string]int32{}
 						m.lastBeat = time.Time{}
 						m.silent = false
